@@ -16,9 +16,7 @@ for s in seeds:
     import shutil, tempfile
     ev_dir = os.path.join(V, "evidence")
     bak = tempfile.mkdtemp(prefix="evbak_")
-    for f in os.listdir(ev_dir):
-        if f.endswith(".json"):
-            shutil.copy2(os.path.join(ev_dir, f), os.path.join(bak, f))
+    shutil.copytree(ev_dir, os.path.join(bak, "evidence"))
     a = subprocess.run(["git", "-C", "/repo", "apply", os.path.join(d, "patch.diff")], capture_output=True, text=True)
     res = {"seed": s, "applies": a.returncode == 0, "checks": {}}
     try:
@@ -28,8 +26,18 @@ for s in seeds:
                 res["checks"][p] = {"rc": r.returncode, "lines": [l for l in r.stdout.split("\n") if l.startswith(("VIOLATION", "UNDECIDED", "KNOWN"))][:6]}
     finally:
         subprocess.run(["git", "-C", "/repo", "checkout", "--", "."])
-        for f in os.listdir(bak):
-            shutil.copy2(os.path.join(bak, f), os.path.join(ev_dir, f))
+        # replay files written for the seeded tree are kept with the seed; the evidence directory is put back exactly
+        keep = os.path.join(d, "replay")
+        shutil.rmtree(keep, ignore_errors=True)
+        rp = os.path.join(ev_dir, "replay")
+        for f in (os.listdir(rp) if os.path.isdir(rp) else []):
+            old = os.path.join(bak, "evidence", "replay", f)
+            new = os.path.join(rp, f)
+            if not os.path.exists(old) or open(old, "rb").read() != open(new, "rb").read():
+                os.makedirs(keep, exist_ok=True)
+                shutil.copy2(new, os.path.join(keep, f))
+        shutil.rmtree(ev_dir)
+        shutil.copytree(os.path.join(bak, "evidence"), ev_dir)
         shutil.rmtree(bak, ignore_errors=True)
     res["detected"] = any(c["rc"] == 1 for c in res["checks"].values())
     json.dump(res, open(os.path.join(d, "detect.json"), "w"), indent=1)
